@@ -158,19 +158,59 @@ theorem step_replay (strict : Bool) (now' : Time) (s r : State) (op : Op) (rest 
     simp only [List.cons_append, List.nil_append]
     simp only [importFrom, hone]
     rw [maxLogId_snoc s.db st.db log hlogs hlt]
-    split
-    · rename_i hc1
-      exfalso
-      cases hm : maxLogId r.db with
-      | none => rw [hm] at hc1; exact Bool.false_ne_true hc1
-      | some m =>
-        rw [hm] at hc1
-        obtain ⟨x, hx, hxm⟩ := maxLogId_mem r.db m hm
-        rw [hr] at hx
-        have h1 := hlt x hx
-        have h2 : log.id ≤ m := of_decide_eq_true hc1
-        rw [← hxm] at h2
-        exact Nat.lt_irrefl _ (Nat.lt_of_lt_of_le h1 h2)
-    · rfl
+    cases hm : maxLogId r.db with
+    | none => simp only [Bool.false_eq_true, ↓reduceIte]
+    | some m =>
+      obtain ⟨x, hx, hxm⟩ := maxLogId_mem r.db m hm
+      rw [hr] at hx
+      have h1 := hlt x hx
+      rw [hxm] at h1
+      simp only [decide_eq_true_eq, if_neg (Nat.not_le.mpr h1)]
+
+theorem drop_prefix_split (l0 e1 e2 : List Log) :
+    (l0 ++ e1 ++ e2).drop l0.length = ((l0 ++ e1).drop l0.length) ++ ((l0 ++ e1 ++ e2).drop (l0 ++ e1).length) := by
+  rw [List.append_assoc, List.drop_left, List.drop_left, ← List.append_assoc, List.drop_left]
+
+theorem runHist_replay (strict : Bool) (now' : Time) (ops : List Op) (s r : State)
+    (hinv : Inv s.db s.seq) (hw : Map.WF s.db.volumes) (hr : r.db = s.db)
+    (hsafe : replaySafe strict s ops = true) :
+    ∃ r', importFrom now' r (maxLogId r.db) ((runHist strict s ops).db.logs.drop s.db.logs.length) = (r', none) ∧
+          r'.db = (runHist strict s ops).db := by
+  induction ops generalizing s r with
+  | nil =>
+    refine ⟨r, ?_, hr⟩
+    simp only [runHist, List.drop_length, importFrom]
+  | cons op rest ih =>
+    simp only [replaySafe, Bool.and_eq_true] at hsafe
+    obtain ⟨e1, h1⟩ := step_logs_prefix strict s op
+    obtain ⟨e2, h2⟩ := runHist_logs_prefix strict (step strict s op).1 rest
+    obtain ⟨r1, hstep, hr1, hw1⟩ := step_replay strict now' s r op
+      ((runHist strict (step strict s op).1 rest).db.logs.drop (step strict s op).1.db.logs.length) hinv hw hr hsafe.1
+    obtain ⟨r2, hrest, hr2⟩ := ih (step strict s op).1 r1 (step_inv strict s op hinv) hw1 hr1 hsafe.2
+    refine ⟨r2, ?_, hr2⟩
+    simp only [runHist]
+    have hsplit : (runHist strict (step strict s op).1 rest).db.logs.drop s.db.logs.length =
+        ((step strict s op).1.db.logs.drop s.db.logs.length) ++
+        ((runHist strict (step strict s op).1 rest).db.logs.drop (step strict s op).1.db.logs.length) := by
+      rw [h2, h1]
+      exact drop_prefix_split _ _ _
+    rw [hsplit, hstep]
+    rw [hr1] at hrest ⊢
+    exact hrest
+
+/-- **Replay reproduces the tables**: for every history whose committed logs are all
+    `logSafe`, `Export` (logs in id order) followed by `Import` into an empty ledger
+    succeeds and yields exactly the same tables — at any import clock `now'`. -/
+theorem replay_reproduces_safe (strict : Bool) (now' : Time) (ops : List Op) (hsafe : replaySafe strict {} ops = true) :
+    (importLogs now' {} (exportLogs (runHist strict {} ops))).2 = none ∧
+    (importLogs now' {} (exportLogs (runHist strict {} ops))).1.db = (runHist strict {} ops).db := by
+  have hinv := runHist_inv strict {} ops Inv.empty
+  rw [exportLogs_sorted _ hinv.logSorted]
+  obtain ⟨r', h, hr'⟩ := runHist_replay strict now' ops {} {} Inv.empty Map.WF_nil rfl hsafe
+  unfold importLogs
+  simp only [List.drop_zero, List.length_nil] at h
+  have h' : importFrom now' {} (maxLogId ({} : State).db) (runHist strict {} ops).db.logs = (r', none) := h
+  rw [h']
+  exact ⟨rfl, hr'⟩
 
 end Ledger.Ctrl
